@@ -1142,6 +1142,13 @@ func callBuiltin(caller *frame, callpos token.Pos, fn *ssa.Builtin, args []value
 
 	case "ssa:deferstack":
 		return &caller.defers
+
+	case "Sizeof", "Alignof":
+		t := fn.Type().(*types.Signature).Params().At(0).Type()
+		if fn.Name() == "Alignof" {
+			return uintptr(theInterp.sizes.Alignof(t))
+		}
+		return uintptr(theInterp.sizes.Sizeof(t))
 	}
 
 	panic("unknown built-in: " + fn.Name())
